@@ -9,7 +9,7 @@ demofile=$(python3 -c "import json;m=json.load(open('$MD/meta.json'));print(m['d
 cp "$MD/$(basename "$demofile")" "$D/"
 python3 - "$MD/meta.json" "$LOG" "$D/meta.json" "$ID" <<'PY'
 import json,sys,re
-m=json.load(open(sys.argv[1])); log=open(sys.argv[2]).read()
+m=json.load(open(sys.argv[1])); log=open(sys.argv[2],errors='replace').read()
 out={"property":sys.argv[4],"summary":m.get("summary"),"mechanism":m.get("mechanism"),"needs_to_manifest":m.get("needs_to_manifest"),
  "demo":m.get("demo"),"author_tests_run":m.get("tests_run"),
  "confirmed_by":"tools/mutcheck.sh in a scratch worktree of /repo HEAD (demo on clean tree, demo with patch, existing tests of touched packages with patch, then the quick check built against the patched worktree)",
